@@ -127,6 +127,12 @@ def quiet_selftest(ctx, prop):
     if os.path.isdir(ed):
         for d in sorted(os.listdir(ed)):
             pp = os.path.join(ed, d, "patch.diff")
+            try:
+                meta = json.load(open(os.path.join(ed, d, "meta.json")))
+            except Exception:
+                meta = {}
+            if meta.get("accepted_limitation") or meta.get("superseded_by"):
+                continue            # documented: reported as undecided (fail closed) / only applies to an older commit
             if os.path.exists(pp):
                 ps.append((d, pp))
     res = []
